@@ -373,6 +373,23 @@ def hyp_body(rec, env):
 
 # -- shards ----------------------------------------------------------------
 
+PURITY_TEMPLATES = ['=A1+B1',
+                    '=A1-B1',
+                    '=A1*B1',
+                    '=A1/B1',
+                    '=A1^B1',
+                    '=A1&B1',
+                    '=A1=B1',
+                    '=A1<>B1',
+                    '=A1<B1',
+                    '=A1<=B1',
+                    '=A1>B1',
+                    '=A1>=B1',
+                    '=-A1',
+                    '=A1%',
+                    '=+A1']
+
+
 def shards(tier, seed):
     out = [dict(kind='refs', ops=[op]) for op in BINOPS] + \
         [dict(kind='refs', ops=UNOPS)]
@@ -389,10 +406,14 @@ def shards(tier, seed):
     for k in range(n_h):
         out.append(dict(kind='hyp', seed=seed * 1000 + k,
                         n=3000 if tier == 'quick' else 40000))
+    out.append(dict(kind='purity'))
     return out
 
 
 def run_shard(shard, rec):
+    if shard['kind'] == 'purity':
+        from vlib import purity
+        return purity.run(rec, ID, PURITY_TEMPLATES)
     kind = shard['kind']
     if kind == 'refs':
         env = FastEnv()
@@ -438,6 +459,9 @@ def run_shard(shard, rec):
 
 
 def replay(case, rec):
+    from vlib import purity
+    if purity.is_case(case):
+        return purity.replay(rec, ID, case)
     global BOUNDS
     BOUNDS = False
     try:
